@@ -1,6 +1,339 @@
-//! C03 — placeholder while C04 is brought up.
-use vmon::report::Args;
-pub fn run(_args: &Args) -> i32 {
-    eprintln!("HARNESS-ERROR C03 not implemented");
-    2
+//! C03 — concurrent transactions serialize: every committed version equals strict serial replay.
+//!
+//! Generator: 2-4 actors, each one operation from {append, delete, update, merge_insert (upsert /
+//! update-only / partial schema), compact_files (with / without deferred index remap),
+//! create_index, optimize_indices, update_config, overwrite, restore, add_columns, drop_columns}
+//! on handles opened at the same or at different read versions, after a short sequential setup
+//! history; 1-4 fragments; stable row ids on/off; schedules: every actor order, uniform, PCT,
+//! round robin at storage-call granularity.
+//!
+//! Oracle: store log => which actor created which version; model (BTreeMap<id,row> + columns +
+//! config + index names) replays the committed ops in version order, each evaluated on the state
+//! immediately before it (workloads are phantom-free, NOTES.md); every version committed in the
+//! concurrent phase is scanned and must equal the model; an op that returned Err must not have
+//! created a version; an op that returned Ok must have created exactly one (except no-op
+//! maintenance); indexed == unindexed answers on the final version.
+
+use crate::c04::{sanitize_phantoms, witness};
+use crate::engine::*;
+use serde_json::json;
+use std::time::Duration;
+use vmon::prng::Rng;
+use vmon::report::{Args, Report};
+use vmon::table::{Actor, IdAlloc};
+
+fn id_sample(rng: &mut Rng, n: i64, k: usize) -> Vec<i64> {
+    let mut v: Vec<i64> = rng
+        .sample_indices(n as usize, k.min(n as usize))
+        .into_iter()
+        .map(|x| x as i64)
+        .collect();
+    v.sort();
+    v
+}
+
+fn pred(rng: &mut Rng, n: i64, rpf: i64) -> IdPred {
+    match rng.below(4) {
+        0 => {
+            // a whole fragment
+            let f = rng.below((n / rpf) as u64) as i64;
+            IdPred::Range(f * rpf, (f + 1) * rpf)
+        }
+        1 => {
+            let lo = rng.below(n as u64) as i64;
+            let hi = (lo + 1 + rng.below(rpf as u64 + 2) as i64).min(n);
+            IdPred::Range(lo, hi)
+        }
+        _ => {
+            let k = rng.urange(1, 4);
+            IdPred::In(id_sample(rng, n, k))
+        }
+    }
+}
+
+pub fn gen_case(seed: u64, idx: u64) -> HistorySpec {
+    let mut rng = Rng::for_case(seed, idx);
+    let frags = rng.urange(1, 4);
+    let rpf = *rng.pick(&[4usize, 6, 10]);
+    let n = (frags * rpf) as i64;
+    let n_ops = *rng.pick_weighted(&[(4, 2usize), (4, 3), (2, 4)]);
+    // setup history (each op one version)
+    let mut pre_ops = vec![];
+    let mut pre_alloc = IdAlloc::new(8);
+    let mut have_index: Option<&'static str> = None;
+    let mut have_x0 = false;
+    for _ in 0..rng.urange(0, 3) {
+        let op = match rng.below(7) {
+            0 if !have_x0 => Op::Append { ids: pre_alloc.take(rng.urange(1, 4)), salt: 77 },
+            1 => Op::Delete { pred: IdPred::In(id_sample(&mut rng, n, 2)), retries: None },
+            2 => Op::Update { pred: pred(&mut rng, n, rpf as i64), add: 100, set_w: None, retries: None },
+            3 if have_index.is_none() => {
+                let col = *rng.pick(&["v", "id", "w"]);
+                have_index = Some(col);
+                Op::CreateIndex { col, name: "idx0".into() }
+            }
+            4 if !have_x0 => {
+                have_x0 = true;
+                Op::AddColumn { name: "x0".into(), nullable: rng.bool() }
+            }
+            5 => Op::UpdateConfig { key: "vk0".into(), value: format!("p{}", rng.below(100)) },
+            _ if !have_x0 => Op::Append { ids: pre_alloc.take(rng.urange(1, 3)), salt: 78 },
+            _ => Op::Delete { pred: IdPred::In(id_sample(&mut rng, n, 1)), retries: None },
+        };
+        pre_ops.push(op);
+    }
+    let base = 1 + pre_ops.len() as u64;
+    let shared_cfg_key = rng.chance(1, 3);
+    let mut actors = vec![];
+    for k in 0..n_ops {
+        let mut alloc = IdAlloc::new(k + 1);
+        let retries = if rng.chance(1, 5) { Some(0) } else { None };
+        let kind = *rng.pick_weighted(&[
+            (4, "append"),
+            (4, "delete"),
+            (4, "update"),
+            (2, "merge_upsert"),
+            (1, "merge_update"),
+            (2, "merge_col"),
+            (3, "compact"),
+            (1, "compact_defer"),
+            (2, "create_index"),
+            (1, "optimize_indices"),
+            (2, "update_config"),
+            (1, "overwrite"),
+            (1, "restore"),
+            (1, "add_column"),
+            (1, "drop_column"),
+        ]);
+        let op = match kind {
+            "append" => Op::Append { ids: alloc.take(rng.urange(1, 5)), salt: rng.next_u64() | 1 },
+            "delete" => Op::Delete { pred: pred(&mut rng, n, rpf as i64), retries },
+            "update" => Op::Update {
+                pred: pred(&mut rng, n, rpf as i64),
+                add: rng.range(1, 9),
+                set_w: if rng.chance(1, 3) { Some(rng.range(10, 20) as i32) } else { None },
+                retries,
+            },
+            "merge_upsert" => {
+                let k = rng.urange(0, 4);
+                let mut ids = id_sample(&mut rng, n, k);
+                ids.extend(alloc.take(rng.urange(0, 3)));
+                if ids.is_empty() {
+                    ids = alloc.take(1);
+                }
+                Op::Merge { ids, salt: rng.next_u64() | 1, insert: true, retries }
+            }
+            "merge_update" => Op::Merge { ids: id_sample(&mut rng, n, 3), salt: rng.next_u64() | 1, insert: false, retries },
+            "merge_col" => Op::MergeCol {
+                ids: id_sample(&mut rng, n, 3),
+                col: if rng.bool() { "v" } else { "w" },
+                salt: rng.next_u64() | 1,
+                retries,
+            },
+            "compact" => Op::Compact { defer_remap: false },
+            "compact_defer" => Op::Compact { defer_remap: true },
+            "create_index" => Op::CreateIndex { col: *rng.pick(&["v", "id", "w"]), name: format!("idx{}", k + 1) },
+            "optimize_indices" => Op::OptimizeIndices,
+            "update_config" => Op::UpdateConfig {
+                key: if shared_cfg_key { "vk".into() } else { format!("vk{}", k + 1) },
+                value: format!("a{}-{}", k + 1, rng.below(1000)),
+            },
+            "overwrite" => Op::Overwrite { ids: alloc.take(rng.urange(1, 5)), salt: rng.next_u64() | 1 },
+            "restore" => Op::Restore { version: rng.range(1, base as i64) as u64 },
+            "add_column" => Op::AddColumn { name: format!("x{}", k + 1), nullable: rng.bool() },
+            _ => Op::DropColumn { name: if have_x0 && rng.bool() { "x0".into() } else { "s".into() } },
+        };
+        let rv = if rng.chance(1, 3) { rng.range(1, base as i64) as u64 } else { base };
+        actors.push((rv, op));
+    }
+    // at most one drop of a given column (a second one is a plain InvalidInput, uninteresting)
+    let mut dropped = std::collections::BTreeSet::new();
+    for (_, op) in actors.iter_mut() {
+        if let Op::DropColumn { name } = op {
+            if !dropped.insert(name.clone()) {
+                *op = Op::Compact { defer_remap: false };
+            }
+        }
+    }
+    // a handle older than the version that added x0 cannot drop x0
+    sanitize_phantoms(&pre_ops, &mut actors, n);
+    let perms = permutations(n_ops);
+    let strategy = match idx % 4 {
+        0 => StratSpec::ActorOrder(perms[rng.usize_below(perms.len())].clone()),
+        1 => StratSpec::Uniform(rng.next_u64()),
+        2 => StratSpec::Pct(rng.next_u64(), rng.urange(1, 3)),
+        _ => {
+            if rng.bool() {
+                StratSpec::RoundRobin
+            } else {
+                StratSpec::Uniform(rng.next_u64())
+            }
+        }
+    };
+    HistorySpec {
+        name: format!("c03-{seed}-{idx}"),
+        stable_row_ids: rng.bool(),
+        v2_manifest_paths: rng.chance(1, 4),
+        frags,
+        rows_per_frag: rpf,
+        pre_ops,
+        actors,
+        strategy,
+    }
+}
+
+async fn one_case(report: &Report, seed: u64, idx: u64) {
+    let spec = gen_case(seed, idx);
+    let out = match run_history(&spec, Duration::from_secs(40)).await {
+        Ok(o) => o,
+        Err(e) => {
+            report.count("setup_failures", 1);
+            if std::env::var("E_CONC_DEBUG").is_ok() {
+                eprintln!("setup failure case {idx}: {e}");
+            }
+            if report.counter("setup_failures") > 20 {
+                report.harness_error(&format!("setup failed repeatedly: {e}"));
+            }
+            return;
+        }
+    };
+    if out.sched.watchdog_fired {
+        report.inconclusive(&format!("watchdog fired in case {idx}"));
+        report.count("watchdog_fired", 1);
+        report.case(None);
+        return;
+    }
+    let facts = log_facts(&out.events);
+    let sc = check_serial(&out, None).await;
+    if let Some(e) = &sc.harness_error {
+        report.harness_error(&format!("case {idx}: {e}"));
+        return;
+    }
+    count_history(report, &out, &facts);
+    note_interleaving(&out, &facts);
+    report.count("rows_compared", sc.rows_compared);
+    report.count("versions_compared", sc.versions_compared);
+    for r in &out.results {
+        report.count(&format!("op_{}_{}", r.op.kind(), if r.result.is_ok() { "ok" } else { "err" }), 1);
+        if let Err((c, _)) = &r.result {
+            if is_conflict_class(c) {
+            } else if matches!(c.as_str(), "InvalidInput" | "NotSupported" | "SchemaMismatch") {
+                report.rejected();
+            } else {
+                report.count(&format!("diagnostic_error_class_{c}_{}", r.op.kind()), 1);
+                if std::env::var("E_CONC_DEBUG").is_ok() {
+                    eprintln!("case {idx}: {}", r.describe());
+                }
+            }
+        }
+    }
+    let mut findings = sc.findings.clone();
+    // indexed == unindexed on the final version
+    if findings.is_empty() {
+        let reader = Actor::new(out.world.new_actor(0));
+        if let Ok(ds) = reader.open(&out.uri).await {
+            let kinds: Vec<&str> = {
+                let mut k: Vec<&str> = out.results.iter().filter(|r| r.result.is_ok()).map(|r| r.op.kind()).collect();
+                k.sort();
+                k.dedup();
+                k
+            };
+            match check_index_coverage(&ds, &kinds.join("+"), false).await {
+                Ok((f, st)) => {
+                    report.count("index_queries_compared", st.queries);
+                    report.count("index_queries_using_index", st.queries_using_index);
+                    findings.extend(f);
+                }
+                Err(e) => {
+                    findings.push(Finding {
+                        signature: "query-fails-on-final-version".into(),
+                        what: format!("query on the final version failed: {e}"),
+                        detail: json!({}),
+                    });
+                }
+            }
+        }
+    }
+    for f in &findings {
+        report.violation(&f.signature, &f.what, witness(&out, seed, idx, json!({}), f));
+    }
+    let nontrivial = exercised_concurrency(&out);
+    report.case(if nontrivial { Some(shape_hash(&out)) } else { None });
+    if nontrivial && report.want_sample() && idx % 7 == 0 {
+        report.sample(json!({
+            "case": idx,
+            "history": out.spec.describe(),
+            "results": out.results.iter().map(|r| r.describe()).collect::<Vec<_>>(),
+            "commit_order": sc.commit_order.iter().map(|(v,i,_)| json!({"version": v, "actor": out.results[*i].actor, "op": out.results[*i].op.kind()})).collect::<Vec<_>>(),
+            "interleaving_head": out.sched.brief(20),
+        }));
+    }
+}
+
+pub fn run(args: &Args) -> i32 {
+    if args.extra.contains_key("selftest") {
+        return selftest(args);
+    }
+    let report = Report::new(
+        args,
+        "exploration",
+        "seeded histories of 2-4 concurrent public-API operations (15 kinds) on handles at same/different read versions x schedule {every actor order, uniform, PCT, round robin}; non-trivial iff an op committed over a concurrent transaction or failed with a conflict; distinct = hash(ops, read versions, results, released storage-call sequence)",
+        (50, 900),
+    )
+    .with_min_nontrivial(50);
+    let max_cases = args.tier.pick(3_000, 200_000);
+    let seed = args.seed;
+    if let Some(path) = &args.replay {
+        let txt = std::fs::read_to_string(path).unwrap_or_default();
+        let v: serde_json::Value = serde_json::from_str(&txt).unwrap_or_default();
+        let seed = v["witness"]["seed"].as_u64().unwrap_or(args.seed);
+        let idx = v["witness"]["case_index"].as_u64().unwrap_or(0);
+        let rt = tokio::runtime::Builder::new_current_thread().enable_all().build().unwrap();
+        for _ in 0..10 {
+            rt.block_on(one_case(&report, seed, idx));
+        }
+        return report.finish();
+    }
+    if let Some(c) = args.extra.get("case").and_then(|c| c.parse::<u64>().ok()) {
+        let rt = tokio::runtime::Builder::new_current_thread().enable_all().build().unwrap();
+        rt.block_on(one_case(&report, seed, c));
+        return report.finish();
+    }
+    run_parallel(&report, 16, max_cases, |i| one_case(&report, seed, i));
+    publish_interleavings(&report);
+    report.finish()
+}
+
+fn selftest(args: &Args) -> i32 {
+    let rt = tokio::runtime::Builder::new_current_thread().enable_all().build().unwrap();
+    let mut fired = [0u32; 3];
+    let mut tried = [0u32; 3];
+    for idx in 0..40u64 {
+        let spec = gen_case(args.seed, idx);
+        let Ok(out) = rt.block_on(run_history(&spec, Duration::from_secs(40))) else { continue };
+        let clean = rt.block_on(check_serial(&out, None));
+        if !clean.findings.is_empty() || clean.harness_error.is_some() || clean.commit_order.is_empty() {
+            continue;
+        }
+        if clean.states.get(&clean.final_version).map(|s| s.rows.is_empty()).unwrap_or(true) {
+            continue;
+        }
+        let m = (idx % 3) as usize;
+        let corrupt: Box<dyn Fn(&mut Observed) + Sync> = match m {
+            0 => Box::new(|o: &mut Observed| { o.rows.pop(); }),
+            1 => Box::new(|o: &mut Observed| { if let Some(r) = o.rows.first().cloned() { o.rows.push(r); } }),
+            _ => Box::new(|o: &mut Observed| {
+                if let Some(r) = o.rows.first_mut() {
+                    r[1] = match &r[1] { vmon::table::Cell::Int(x) => vmon::table::Cell::Int(x - 1), _ => vmon::table::Cell::Int(0) };
+                }
+            }),
+        };
+        let sc = rt.block_on(check_serial(&out, Some(&*corrupt)));
+        tried[m] += 1;
+        if !sc.findings.is_empty() {
+            fired[m] += 1;
+        }
+    }
+    println!("SELFTEST C03 dropped-row {}/{} duplicated-row {}/{} stale-value {}/{}", fired[0], tried[0], fired[1], tried[1], fired[2], tried[2]);
+    if fired == tried && tried.iter().all(|t| *t > 0) { 0 } else { 2 }
 }
